@@ -894,6 +894,22 @@ put_char_space(struct caption *cc, cc_channel *ch)
 	put_char (cc, ch, c);
 }
 
+/* 47 CFR 15.119 (h): An attribute remains in effect "until the end of
+   the row is reached". EIA 608-B Annex C.14, Section 6.2: Where no
+   attributes have been assigned, e.g. on a row created by a Carriage
+   Return, the display is white, non-underlined, non-italicized and
+   non-flashing on an opaque black background. */
+static void
+default_attr(cc_channel *ch)
+{
+	ch->attr.underline = FALSE;
+	ch->attr.italic = FALSE;
+	ch->attr.flash = FALSE;
+	ch->attr.opacity = VBI_OPAQUE;
+	ch->attr.foreground = VBI_WHITE;
+	ch->attr.background = VBI_BLACK;
+}
+
 static void
 backspace(struct caption *cc, cc_channel *ch)
 {
@@ -1111,6 +1127,7 @@ caption_command(vbi_decoder *vbi, struct caption *cc,
 			ch->roll = roll;
 
 			set_cursor(ch, 1, 14);
+			default_attr(ch);
 
 			ch->row1 = 14 - roll + 1;
 
@@ -1127,6 +1144,7 @@ caption_command(vbi_decoder *vbi, struct caption *cc,
 // not verified
 			ch = switch_channel(cc, ch, chan | 4);
 			set_cursor(ch, 1, 0);
+			default_attr(ch);
 			return;
 
 		case 11:	/* Resume Text Display		001 c10f  010 1011 */
@@ -1209,6 +1227,9 @@ caption_command(vbi_decoder *vbi, struct caption *cc,
 
 				ch->col1 = ch->col = 1;
 			}
+
+			if (ch->mode == MODE_ROLL_UP || ch->mode == MODE_TEXT)
+				default_attr(ch);
 
 			return;
 
